@@ -49,6 +49,14 @@ c the natural default (as for ebb1/ebb2, which its dialog initialises)
 	return
 	end
 
+	subroutine vf_gethelpbb(z,a,e)
+	common/helpbb/Zd,Ad,e0,e1
+	z=Zd
+	a=Ad
+	e=e0
+	return
+	end
+
 	subroutine vf_seteta(c)
 	dimension c(7)
 	common/eta_nme/chi_GTw,chi_Fw,chip_GT,chip_F,chip_T,
